@@ -1,0 +1,105 @@
+//go:build verif
+
+package models
+
+// Contracts for the verification machinery in /verif (govc). Comments only.
+// Floats: default exact-real model (rounding ignored).
+
+// ---- matrix vocabulary: mel(d, i, j) (element), msq(d, n) (n x n, own row-major storage) are defined in
+// ---- /verif/specs/externs.spec next to the assumed contracts of gonum's mat.Dense ----
+//@ pure func sel4(k int, a real, b real, c real, d real) real = (k == 0 ? a : (k == 1 ? b : (k == 2 ? c : d)))
+//@ pure func in4(i int) bool = 0 <= i && i < 4
+
+// ---- the Model interface protocol (ASSUMED of every implementation; the dna implementations are checked against it
+// ---- by their own contracts in models/dna): NState and Analytical are constants of the dynamic type; a successful
+// ---- Eigens returns NState eigenvalues and two NState x NState matrices; none of the methods writes to the heap ----
+//@ pure func nstates(m Model) int
+//@ pure func analytical(m Model) bool
+//@ func (Model).NState
+//@   props C18 C19
+//@   ensures result == nstates(recv) && result >= 1
+//@   modifies nothing
+//@ func (Model).Analytical
+//@   props C18 C19
+//@   ensures result == analytical(recv)
+//@   modifies nothing
+//@ func (Model).Eigens
+//@   props C18 C19
+//@   ensures err == nil ==> len(val) == nstates(recv) && msq(leftvectors, nstates(recv)) && msq(rightvectors, nstates(recv))
+//@   modifies nothing
+//@ func (Model).Pij
+//@   props C18 C19
+//@   modifies nothing
+
+// ---- Pij: P(t) = R exp(D t) L with a positivity floor ----
+// well-formed Pij object: three private buffers of the model's dimension, in separate memory
+//@ pure func wfp(p *Pij) bool = p != nil && p.model != nil && msq(p.pij, nstates(p.model)) && msq(p.uexpt, nstates(p.model)) && len(p.expt) == nstates(p.model) && base(p.pij.mat.Data) != base(p.uexpt.mat.Data) && base(p.expt) != base(p.pij.mat.Data) && base(p.expt) != base(p.uexpt.mat.Data)
+// what the model's Eigens() handed back lives outside the three private buffers (they are unexported and never escape)
+//@ pure func psep(p *Pij, val []float64, left *mat.Dense, right *mat.Dense) bool = base(val) != base(p.expt) && base(val) != base(p.uexpt.mat.Data) && base(val) != base(p.pij.mat.Data) && base(left.mat.Data) != base(p.expt) && base(left.mat.Data) != base(p.uexpt.mat.Data) && base(left.mat.Data) != base(p.pij.mat.Data) && base(right.mat.Data) != base(p.expt) && base(right.mat.Data) != base(p.uexpt.mat.Data) && base(right.mat.Data) != base(p.pij.mat.Data)
+// sum_{k<n} R(i,k) exp(val[k] t) L(k,j)
+//@ pure func rel(right *mat.Dense, val []float64, left *mat.Dense, t real, i int, j int, n int) real = (n <= 0 ? 0.0 : rel(right, val, left, t, i, j, n-1) + mel(right, i, n-1) * exp(val[n-1] * t) * mel(left, n-1, j))
+//@ pure func rmax2(a real, b real) real = (a >= b ? a : b)
+// every entry of the stored matrix respects the positivity floor (in particular the matrix has been computed)
+//@ pure func pfloor(p *Pij) bool = forall a, b :: 0 <= a && a < nstates(p.model) && 0 <= b && b < nstates(p.model) ==> mel(p.pij, a, b) >= DBL_MIN
+
+//@ func (*Pij).SetLength
+//@   props C18
+//@   requires wfp(pij)
+//@   ensures wfp(pij) && pij.model == old(pij.model)
+//@   ensures err == nil ==> pij.length == l
+//@   ensures err != nil ==> pij.length == old(pij.length)
+//@   ensures err == nil && !analytical(pij.model) && old(pij.length) != l ==> pfloor(pij)
+//@   ensures old(pij.length) == l || analytical(pij.model) ==> err == nil && (forall a, b :: 0 <= a && a < nstates(pij.model) && 0 <= b && b < nstates(pij.model) ==> mel(pij.pij, a, b) == old(mel(pij.pij, a, b)))
+//@   modifies pij.length, pij.expt[*], pij.uexpt.mat.Data[*], pij.pij.mat.Data[*]
+// the value stored into entry (i,j) by pij.pij.Set: max(DBL_MIN, sum_k R(i,k) exp(val[k] l) L(k,j)) over what Eigens() returned
+// (govc numbers calls in the order it executes the loop bodies: the pij.pij.Set call is #1, the uexpt.Set call #2)
+//@   assert_at gonum.org/v1/gonum/mat.(*Dense).Set 1 : psep(pij, val, left, right) ==> arg3 == rmax2(DBL_MIN, rel(right, val, left, l, i, j, ns))
+//@   loop 1
+//@     modifies pij.expt[*]
+//@     invariant 0 <= i && i <= ns
+//@     invariant psep(pij, val, left, right) ==> (forall k :: 0 <= k && k < i ==> pij.expt[k] == exp(val[k] * l))
+//@     decreases ns - i
+//@   loop 2
+//@     modifies pij.uexpt.mat.Data[*]
+//@     invariant 0 <= i && i <= ns
+//@     invariant psep(pij, val, left, right) ==> (forall a, b :: 0 <= a && a < i && 0 <= b && b < ns ==> mel(pij.uexpt, a, b) == mel(right, a, b) * exp(val[b] * l))
+//@     decreases ns - i
+//@   loop 3
+//@     modifies pij.uexpt.mat.Data[*]
+//@     invariant 0 <= i && i < ns && 0 <= j && j <= ns
+//@     invariant psep(pij, val, left, right) ==> (forall a, b :: 0 <= a && a < i && 0 <= b && b < ns ==> mel(pij.uexpt, a, b) == mel(right, a, b) * exp(val[b] * l))
+//@     invariant psep(pij, val, left, right) ==> (forall b :: 0 <= b && b < j ==> mel(pij.uexpt, i, b) == mel(right, i, b) * exp(val[b] * l))
+//@     decreases ns - j
+//@   loop 4
+//@     modifies pij.pij.mat.Data[*]
+//@     invariant 0 <= i && i <= ns
+//@     invariant psep(pij, val, left, right) ==> (forall a, b :: 0 <= a && a < ns && 0 <= b && b < ns ==> mel(pij.uexpt, a, b) == mel(right, a, b) * exp(val[b] * l))
+//@     invariant forall a, b :: 0 <= a && a < i && 0 <= b && b < ns ==> mel(pij.pij, a, b) >= DBL_MIN
+//@     decreases ns - i
+//@   loop 5
+//@     modifies pij.pij.mat.Data[*]
+//@     invariant 0 <= i && i < ns && 0 <= j && j <= ns
+//@     invariant psep(pij, val, left, right) ==> (forall a, b :: 0 <= a && a < ns && 0 <= b && b < ns ==> mel(pij.uexpt, a, b) == mel(right, a, b) * exp(val[b] * l))
+//@     invariant forall a, b :: 0 <= a && a < i && 0 <= b && b < ns ==> mel(pij.pij, a, b) >= DBL_MIN
+//@     invariant forall b :: 0 <= b && b < j ==> mel(pij.pij, i, b) >= DBL_MIN
+//@     decreases ns - j
+//@   loop 6
+//@     modifies nothing
+//@     invariant 0 <= i && i < ns && 0 <= j && j < ns && 0 <= k && k <= ns
+//@     invariant psep(pij, val, left, right) ==> (forall a, b :: 0 <= a && a < ns && 0 <= b && b < ns ==> mel(pij.uexpt, a, b) == mel(right, a, b) * exp(val[b] * l))
+//@     invariant psep(pij, val, left, right) ==> v == rel(right, val, left, l, i, j, k)
+//@     decreases ns - k
+
+//@ func NewPij
+//@   props C18
+//@   requires m != nil && l >= 0.0
+//@   ensures pij != nil && fresh(pij) && wfp(pij) && pij.model == m
+//@   ensures err == nil ==> pij.length == l
+//@   ensures err == nil && !analytical(m) ==> pfloor(pij)          // the matrix has been computed for l
+//@   modifies nothing
+
+//@ func (*Pij).Pij
+//@   props C18 C19
+//@   requires wfp(pij) && 0 <= i && i < nstates(pij.model) && 0 <= j && j < nstates(pij.model)
+//@   ensures !analytical(pij.model) ==> result == mel(pij.pij, i, j)
+//@   modifies nothing
